@@ -56,6 +56,7 @@ void ns_inject(const coap_address_t *src, const coap_address_t *dst, const uint8
 void ns_inject_now(const coap_address_t *src, const coap_address_t *dst, const uint8_t *data, size_t len);
 int ns_total_sent(void);        /* datagrams sent by libcoap sockets so far */
 extern int ns_bind_fail_next;   /* >0: the next coap_socket_bind_udp fails with EADDRINUSE (decremented) */
+int ns_icmp_unreachable(const coap_address_t *client_local); /* ICMP port-unreachable notice for a connected UDP client socket; 1 = read by libcoap */
 extern int ns_send_fail_next;   /* >0: the next coap_socket_send returns -1/ENOBUFS (decremented) */
 
 /* hooks */
